@@ -157,6 +157,9 @@ func TestBACInterop(t *testing.T) {
 		}
 		cls := fmt.Sprintf("interop-%s-doc%s", m.Fields.Layout, docClass(m.DocNo))
 		evid.Case(cls, true, m.Info+fmt.Sprint(kind), repro)
+		if len(m.DocNo) > 9 && m.Fields.Opt1 != "" {
+			evid.Count("interop-extended-docno-plus-optional-data", 1)
+		}
 		s := runBAC(m, pass, m.Info, chipRand, nil)
 		if msg := checkEstablished(s, m); msg != "" {
 			repro["libPassword"] = pass.Password
